@@ -111,6 +111,21 @@ class RefinementMonitor:
                 # (compared as values, not as float64 positions: -6.7e-23 left by a bilateral filter with a tiny
                 # sigma_color has position 4.0 in float64 and is nevertheless not the sample 0.0)
                 on_sample = pos == round(pos) and 0 <= round(pos) < nd and gmin + round(pos) / subpix == x0
+                if not on_sample and gmin <= x0 <= gmax:
+                    # an off-sample input whose sample index (the one the implementation truncates it to; taken only
+                    # when float32 and float64 arithmetic agree on it) is an end of the interval has no neighbouring
+                    # cost on that side: "its sample sits on an end of the interval" - left where it was, bit 3
+                    x32 = np.float32(x0)
+                    k64 = int((float(x32) - gmin) * subpix)
+                    k32 = int((x32 - np.float32(gmin)) * np.float32(subpix))
+                    if k64 == k32 and k64 in (0, nd - 1) and not math.isnan(costs[r, c, k64]):
+                        ctx.probe("off_sample_input_with_end_index")
+                        if x1 != x0 or not (m1[r, c] & B3):
+                            self.v("bit3_rule", ev, side, pixel=[r, c], before=x0, after=x1,
+                                   sig={"off_sample_end_index": True, "has_bit3": bool(m1[r, c] & B3),
+                                        "moved": bool(x1 != x0)})
+                            return
+                        continue
                 if x1 < gmin - 1e-6 or x1 > gmax + 1e-6:
                     if on_sample or not reported_offsample:
                         self.v("outside_global_interval", ev, side, pixel=[r, c], before=x0, after=x1,
